@@ -163,6 +163,7 @@ LIST_MODELS = [
     (r"^Vec::<" + NOTU8 + r".*>::is_empty$", m_is_empty),
     (r"^<Vec<" + NOTU8 + r".*> as IntoIterator>::into_iter$", m_into_iter),
     (r"^<std::vec::IntoIter<.*> as Iterator>::next$", m_iter_next),
+    (r"^<std::vec::IntoIter<.*> as IntoIterator>::into_iter$", M.m_identity),
     (r"^core::slice::<impl \[.*\]>::get_mut::<usize>$", m_get_mut),
     (r"^<Vec<" + NOTU8 + r".*> as (Deref|DerefMut)>::(deref|deref_mut)$", m_deref_identity),
     (r"^<std::ops::Range<(u64|usize|u32)> as IntoIterator>::into_iter$", m_range_into_iter),
